@@ -17,7 +17,7 @@ func init() {
 			"(R2) the validation loop stores an error into every slot before anything is queued, and the call->index map is filled in that same loop with the range element and index; " +
 			"(R3) a result received from a call's channel is stored only into that same call's slot; " +
 			"(R4) success-flag bookkeeping across rounds: inside the retry loop allOK is only set to false or to the negation of a sticky flag that is declared outside the loop, never reset inside it and only ever OR-ed with the per-group 'unretryable error seen' result; a failed group sets allOK to false." +
-			" Added after the seeded-change rounds: (R5) an error taken from a context and stored into a slot is the Err() of the context whose Done() was seen on that path (or sits in the drain loop whose lower bound is only lowered in that arm); a whole result copied from the location step's result slice into a slot is copied only on the edge where it carries an error; the queue channel of the region client is unbuffered (shared with C03.R5).",
+			" Added after the seeded-change rounds: (R5) an error taken from a context and stored into a slot is the Err() of the context whose Done() was seen on that path (or sits in the drain loop whose lower bound is only lowered in that arm); a whole result copied from the location step's result slice into a slot is copied only on the edge where it carries an error; the queue channel of the region client is unbuffered (shared with C03.R5); a context error goes into the slot of a call only out of the default of a non-blocking select that polled that call's ResultChan() - a blocking select picks among ready cases at random, so an answer that arrived before the context ended must win (fix F30).",
 		Residue:   "allOK <=> every error is nil as a value-level statement over all outcome sequences (R4 pins the sticky-flag mechanism, not the equivalence)",
 		Technique: "index-provenance analysis over SSA (who writes which slot, with which index), alignment obligations propagated to call sites",
 		Run:       runC07,
@@ -671,6 +671,7 @@ func runC07(c *kit.Ctx) {
 			}
 			c.Check(good, s.fn, "context-error-is-of-done-context", s.store.Pos(), "Error = X.Err() where <-X.Done() was seen (so it is not nil)",
 				"the slot of a call is given the Err() of a context that is not known to be done here: it can be nil, leaving the call with neither a response nor an error while the batch is reported as not all-OK")
+			answerWinsOverEndedContext(c, s.fn, s.ia, s.store)
 			continue
 		}
 		// (b) a whole result copied from another result slice is an error result
@@ -1228,4 +1229,81 @@ func wfcResultFeeding(v ssa.Value, wfcName string, depth int) int {
 		}
 	}
 	return -1
+}
+
+// answerWinsOverEndedContext: where the function that collects the answers of a batch writes a context error into
+// the slot of a call, no answer of that call is waiting: every way to the store comes out of the default of a
+// non-blocking select that polled the call's ResultChan(). A blocking select picks among its ready cases at random,
+// so the arm that saw <-X.Done() says nothing about the result channel: the answer may have arrived before the
+// context ended, and a call that succeeded would lose its response to "context canceled". C07.R5 (F30).
+func answerWinsOverEndedContext(c *kit.Ctx, fn *ssa.Function, ia *ssa.IndexAddr, store *ssa.Store) {
+	p := c.P
+	resultChanOf := func(st *ssa.SelectState) ssa.Value {
+		if st.Dir != types.RecvOnly {
+			return nil
+		}
+		call, ok := kit.Root(st.Chan).(*ssa.Call)
+		if !ok {
+			return nil
+		}
+		if recv, ok := p.IsMethodOn(call, "hrpc", "Call", "ResultChan"); ok {
+			return recv
+		}
+		return nil
+	}
+	// only in functions that wait for answers (somebody may have answered)
+	waits := false
+	kit.Instrs(fn, func(in ssa.Instruction) {
+		if sel, ok := in.(*ssa.Select); ok {
+			for _, st := range sel.States {
+				if resultChanOf(st) != nil {
+					waits = true
+				}
+			}
+		}
+	})
+	if !waits {
+		return
+	}
+	var slotCall ssa.Value
+	if lk, ok := kit.Strip(ia.Index).(*ssa.Lookup); ok {
+		slotCall = kit.Root(lk.Index)
+	}
+	polled := func(facts []kit.Fact) bool {
+		notTaken := map[*ssa.Select]map[int64]bool{}
+		for _, f := range facts {
+			bo, ok := f.Cond.(*ssa.BinOp)
+			if !ok || bo.Op != token.EQL || f.Pol {
+				continue
+			}
+			ex, ok := bo.X.(*ssa.Extract)
+			if !ok || ex.Index != 0 {
+				continue
+			}
+			sel, ok := ex.Tuple.(*ssa.Select)
+			if !ok || sel.Blocking {
+				continue
+			}
+			if k, ok := kit.ConstInt(bo.Y); ok {
+				if notTaken[sel] == nil {
+					notTaken[sel] = map[int64]bool{}
+				}
+				notTaken[sel][int64(k)] = true
+			}
+		}
+		for sel, ks := range notTaken {
+			if len(ks) != len(sel.States) {
+				continue
+			}
+			for _, st := range sel.States {
+				if r := resultChanOf(st); r != nil && (slotCall == nil || kit.Same(kit.Root(r), slotCall)) {
+					return true
+				}
+			}
+		}
+		return false
+	}
+	c.Check(kit.OnAllWays(store.Block(), polled, 0), fn, "answer-wins-over-ended-context", store.Pos(),
+		"a context error goes into the slot only out of the default of a non-blocking poll of the call's ResultChan()",
+		"the slot of a call is given a context error on a way that did not poll the call's ResultChan(): a blocking select picks among ready cases at random, so when the answer arrived before the context ended the call that succeeded loses its response (and its nil error) to the context error")
 }
